@@ -88,6 +88,7 @@ int main(int argc, char** argv) {
     for (uint32_t round = 0; round < rounds; ++round) {
         std::atomic<uint64_t> visits{0};
         std::vector<std::atomic<uint32_t>> seen_tid(workers + 2);
+        std::atomic<uint32_t> marked_early{0};
         world.update();
         em.forEach([&](Entity e, Pos& p, const Vel& v, const JobInvocationIndex& idx) {
             p.v += v.v;                       // plain write to the component the task was handed
@@ -96,6 +97,9 @@ int main(int argc, char** argv) {
             if (tid < seen_tid.size()) seen_tid[tid].fetch_add(1);
             if ((mode & 1) != 0) {
                 if (e.id().toInt() % 7u == round % 7u && !em.hasComponent<Tag>(e)) em.assign<Tag>(e);   // deferred (locked)
+                // deferred destruction from several tasks at once (takes effect at the next update()), next to readers
+                if (e.id().toInt() % 11u == (round + 3u) % 11u) em.destroy(e);
+                else if (e.id().toInt() % 11u == (round + 4u) % 11u && em.isMarkedForDestroy(e)) marked_early.fetch_add(1);
             }
             if ((mode & 2) != 0) {
                 if (round == 0 && e.id().toInt() % 64u == 0u) (void) ComponentFactory::instance().registerComponent<Late0>();
@@ -104,11 +108,18 @@ int main(int argc, char** argv) {
             }
         }, JobRunMode::kParallel);
         // after run(): everything the tasks wrote must be visible here without further synchronisation
-        uint64_t sum = 0;
-        uint32_t alive = 0;
-        for (Entity e : all) {
-            if (em.isEntityValid(e)) { sum += em.getComponent<const Pos>(e)->v; ++alive; }
+        uint64_t sum = 0, expect_alive_sum = 0;
+        uint32_t alive = 0, marks_missing = 0;
+        for (uint32_t i = 0; i < entities; ++i) {
+            const Entity e = all[i];
+            if (em.isEntityValid(e)) {
+                sum += em.getComponent<const Pos>(e)->v; ++alive; expect_alive_sum += i;
+                // every destroy() a task issued must have arrived (marked after the flush at unlock), nobody else is marked
+                const bool should = (mode & 1) != 0 && e.id().toInt() % 11u == (round + 3u) % 11u;
+                if (em.isMarkedForDestroy(e) != should) ++marks_missing;
+            }
         }
+        (void) expect_sum;
         uint32_t tids = 0;
         for (auto& c : seen_tid) if (c.load() > 0) ++tids;
         int ntj_ok = 1;
@@ -134,9 +145,10 @@ int main(int argc, char** argv) {
                 if (em.getComponent<const Payload>(e)->value != round + 1u) ntj_ok = 0;
             }
         }
-        std::printf("round %u visits=%llu alive=%u sum_ok=%d threads_used=%u ntj_ok=%d ntj_tasks=%llu\n", round,
+        std::printf("round %u visits=%llu alive=%u sum_ok=%d threads_used=%u ntj_ok=%d ntj_tasks=%llu marks_wrong=%u marked_early=%u\n", round,
                     static_cast<unsigned long long>(visits.load()), alive,
-                    sum == expect_sum + static_cast<uint64_t>(alive) * (round + 1u) ? 1 : 0, tids, ntj_ok, ntj_tasks);
+                    sum == expect_alive_sum + static_cast<uint64_t>(alive) * (round + 1u) ? 1 : 0, tids, ntj_ok, ntj_tasks,
+                    marks_missing, marked_early.load());
         std::fflush(stdout);
     }
     return 0;
